@@ -157,6 +157,16 @@ def payloadCheck (t : Tx) : Bool := decide t.payloadHashes.Nodup
     block's withdrawals are refused -/
 def blockCheck (txs : List Tx) : Bool := decide (txs.flatMap (·.payloadHashes)).Nodup
 
+/-! ### the mempool slot `SidechainTxHashes` (mempool/conflictfunc.go: hashArraySidechainTransactionHashes) -/
+
+/-- the slot's key function: payload hashes for V0 (and unknown versions), withdraw-output hashes for
+    V1 and V2 -/
+def poolKeys (t : Tx) : List Nat := if t.pver = 1 ∨ t.pver = 2 then t.outputHashes else t.payloadHashes
+
+/-- `VerifyTx` then `AppendTx` on that slot: (indexed keys, accepted transactions, newest first) -/
+def poolAdd (st : List Nat × List Tx) (t : Tx) : List Nat × List Tx :=
+  if (poolKeys t).any (st.1.contains ·) then st else (poolKeys t ++ st.1, t :: st.2)
+
 /-! ### the Tx3 index along a history of connected / disconnected blocks -/
 
 /-- connecting a block: the save processor of every withdrawal records *all* its hashes -/
